@@ -24,8 +24,6 @@ def families(rng, tier):
              "> ", "- ", "1. ", "* ", "![", "[^", "<!--", "<?", "<![CDATA[", "<a ", "||", "~~", "**", "__", "$$", ">>>\n", "```\n", "a@b.c ", "www.a.b ", "http://x.y ", "[x](", "&amp;", "&#0;", "\\\n", "|a", "x\n===\n", "[a]: /u\n"]
     for a in atoms:
         for n in reps:
-            if a == "a@b.c " and n > 3000:
-                n = 3000  # the known recursion (C01-b) is probed separately
             F.append(a * n + "x")
             if n <= 100:
                 F.append(a * n + "x" + a[::-1] * n)
@@ -143,13 +141,16 @@ def main(tier):
                 bad += 1
                 c.violation(f"{stage} output is not valid UTF-8 ({profile} build)", {"doc": hx(r.doc), "opts": docgen.opts_token(r.opts), "line": f"md {stage} {docgen.opts_token(r.opts)} {hx(r.doc)}"})
         stats[profile] = {"cases": len(recs), "returned": sum(1 for r in recs if r.status == "ok"), "stage_panics": npan, "outputs_utf8_checked": len(u8), "not_utf8": bad}
-    # the known e-mail autolink recursion: one probe per build, in an isolated process
+    # the e-mail autolink recursion (C01-b, repaired by 89410a4: status fixed suppresses nothing): the witness
+    # must complete in both builds, in an isolated process
     probe = "a@b.c " * (20000 if tier == "quick" else 100000)
-    for profile in ("debug",):
+    for profile in ("debug", "release"):
         r = vlib.run_one(vlib.VH[profile], f"parse autolink=1 {hx(probe)}", timeout=120)
         c.count(b"email-probe:" + profile.encode(), True)
-        if r.startswith("dead") or r == "hang":
-            c.known_hit("email_autolink_recursion", {"input": "'a@b.c ' x %d" % (len(probe) // 6), "observed": r, "profile": profile})
+        if not r.startswith("ok "):
+            c.violation(f"parse_document does not return on the witness of the repaired class email_autolink_recursion ({profile} build): {r[:80]}",
+                        {"input": "'a@b.c ' x %d" % (len(probe) // 6), "opts": "autolink=1", "observed": r[:200], "profile": profile,
+                         "line": f"parse autolink=1 {hx(probe)}"[:200] + "..."})
         stats["email_probe_" + profile] = r[:40]
     c.cov["spec_checks"]["isolated pipeline runs: returns, no stage panic, utf8_valid(html/xml/cm)"] = stats
     c.cov["samples"].append({"line": f"pipe {docgen.opts_token(cases[0][1])} {hx(cases[0][0])[:200]}"})
